@@ -187,6 +187,39 @@ fn format_hunk_range(start: Option<usize>, end: Option<usize>) -> String {
     }
 }
 
+/// Replace `path` with `contents` without ever exposing a truncated or half-written file:
+/// the new content goes to a temporary file next to the target, which is renamed over it only
+/// after it was written and flushed completely. A crash or a write failure (full disk, file
+/// size limit) at any point leaves the original file untouched.
+fn write_file_atomically(path: &std::path::Path, contents: &str) -> io::Result<()> {
+    // write through symlinks, like `fs::write` does
+    let target = fs::canonicalize(path).unwrap_or_else(|_| path.to_path_buf());
+    let dir = target.parent().map(|p| p.to_path_buf()).unwrap_or_default();
+    let file_name = target
+        .file_name()
+        .map(|name| name.to_string_lossy().to_string())
+        .unwrap_or_default();
+    let tmp = dir.join(format!(".{file_name}.luafmt-{}.tmp", std::process::id()));
+
+    let result = (|| {
+        let mut file = fs::OpenOptions::new()
+            .write(true)
+            .create_new(true)
+            .open(&tmp)?;
+        file.write_all(contents.as_bytes())?;
+        file.sync_all()?;
+        if let Ok(metadata) = fs::metadata(&target) {
+            file.set_permissions(metadata.permissions())?;
+        }
+        drop(file);
+        fs::rename(&tmp, &target)
+    })();
+    if result.is_err() {
+        let _ = fs::remove_file(&tmp);
+    }
+    result
+}
+
 fn main() {
     let args = cmd_args::CliArgs::parse();
     let diff_render_options = DiffRenderOptions {
@@ -332,7 +365,7 @@ fn main() {
                         }
                     }
                 } else if args.write {
-                    if changed && let Err(e) = fs::write(path, formatted) {
+                    if changed && let Err(e) = write_file_atomically(path, &formatted) {
                         eprintln!("Failed to write {}: {e}", path.to_string_lossy());
                         exit_code = 2;
                     }
